@@ -387,7 +387,11 @@ fn main() {
         staged_symmetry_runs(&mut evs);
         for e in evs { writeln!(out, "{e}").unwrap(); nev += 1; }
     }
+    let base_seed = env_u64("VERIF_SEED", 0) ^ 0xC03;
     for run in 0..runs {
+        // every run draws from its own stream: adding a fixed run, or a new random choice inside a run, does not
+        // change what the other runs do (a seeded change once escaped because the stream had moved)
+        rng = StdRng::seed_from_u64(base_seed ^ (run as u64 + 1).wrapping_mul(0x9E37_79B9_7F4A_7C15));
         if std::env::var("VERIF_RW_DEBUG").is_ok() && run % 50 == 0 { eprintln!("run {run} at {:.1}s", t_start.elapsed().as_secs_f64()); }
         let mut kind = ["manual", "runner", "eqsat"][run % 3];
         tick(&format!("rewriting run {run}"));
